@@ -12,7 +12,7 @@ pub mod sync {
         pub uninterp spec fn queue_inv<T>(v: T) -> bool;
         pub mod error {
             pub struct SendError<T> { pub v: T }
-            pub struct TrySendError<T> { pub v: T }
+            pub enum TrySendError<T> { Full(T), Closed(T) }
         }
         pub use error::{SendError, TrySendError};
         impl<T> Clone for Sender<T> {
@@ -35,7 +35,7 @@ pub mod sync {
             #[verifier::external_body]
             pub fn try_send(&self, v: T) -> (r: Result<(), TrySendError<T>>)
                 requires queue_inv(v),
-                ensures r is Ok ==> self.delivered(v),
+                ensures r is Ok ==> self.delivered(v), r matches Err(TrySendError::Closed(_)) ==> self.receiver_gone(),
             { unimplemented!() }
         }
         impl<T> Receiver<T> {
